@@ -99,7 +99,7 @@ theorem sedov_dlamdv_ne_none {p : SedovFuncs.P} {γ k ω v : ℝ} (hC : StdConst
   have B := Std.bases hC (Std.signs_of_interior I)
   have e : SedovFuncs.L1.dlamdv p v = SedovFuncs.L1.l_fun_dv p v := by
     rw [Std.l_dv p v B]
-    simp only [epv_leaf, Alg.sL]
+    simp only [epv_semi_leaf, Alg.sL]
     have h1 := B.x1.ne'; have h2 := B.x2.ne'; have h3 := B.x3.ne'
     have h4 : p.a_val ≠ 0 := left_ne_zero_of_mul h1
     have h5 : p.b_val ≠ 0 := left_ne_zero_of_mul h2
@@ -288,11 +288,11 @@ theorem sedov_tree_none (p : SedovFuncs.P) (v₀ : ℝ) (hc0 : ¬ SedovFuncs.c0 
       ∧ SedovFuncs.g_fun p v = SedovFuncs.L1.g_fun p v ∧ SedovFuncs.h_fun p v = SedovFuncs.L1.h_fun p v
       ∧ SedovFuncs.dlamdv p v = SedovFuncs.L1.dlamdv p v := by
   have hopen0 : ∀ᶠ w in 𝓝 v₀, ¬ SedovFuncs.c0 p w := by
-    simp only [epv_cond, not_le] at hc0 ⊢
+    simp only [epv_semi_cond, not_le] at hc0 ⊢
     have hcont : Continuous fun w : ℝ => p.c_val * w - 1 := by fun_prop
     exact hcont.continuousAt.eventually (lt_mem_nhds hc0)
   have hopen1 : ∀ᶠ w in 𝓝 v₀, SedovFuncs.c1 p w := by
-    simp only [epv_cond]
+    simp only [epv_semi_cond]
     have hcont : Continuous fun w : ℝ => p.b_val * (1 - 1 / 2 * p.xg2 * w) := by fun_prop
     exact (hcont.continuousAt.eventually (lt_mem_nhds hc1)).mono fun w hw => hw.le
   filter_upwards [hopen0, hopen1] with w h0 h1
@@ -304,11 +304,11 @@ theorem sedov_tree_omega2 (p : SedovFuncsO2.P) (v₀ : ℝ) (hc0 : ¬ SedovFuncs
       ∧ SedovFuncsO2.g_fun p v = SedovFuncsO2.L1.g_fun p v ∧ SedovFuncsO2.h_fun p v = SedovFuncsO2.L1.h_fun p v
       ∧ SedovFuncsO2.dlamdv p v = SedovFuncsO2.L1.dlamdv p v := by
   have hopen0 : ∀ᶠ w in 𝓝 v₀, ¬ SedovFuncsO2.c0 p w := by
-    simp only [epv_cond, not_le] at hc0 ⊢
+    simp only [epv_semi_cond, not_le] at hc0 ⊢
     have hcont : Continuous fun w : ℝ => p.c_val * w - 1 := by fun_prop
     exact hcont.continuousAt.eventually (lt_mem_nhds hc0)
   have hopen1 : ∀ᶠ w in 𝓝 v₀, SedovFuncsO2.c1 p w := by
-    simp only [epv_cond]
+    simp only [epv_semi_cond]
     have hcont : Continuous fun w : ℝ => p.b_val * (1 - 1 / 2 * p.xg2 * w) := by fun_prop
     exact (hcont.continuousAt.eventually (lt_mem_nhds hc1)).mono fun w hw => hw.le
   filter_upwards [hopen0, hopen1] with w h0 h1
@@ -320,11 +320,11 @@ theorem sedov_tree_omega3 (p : SedovFuncsO3.P) (v₀ : ℝ) (hc0 : ¬ SedovFuncs
       ∧ SedovFuncsO3.g_fun p v = SedovFuncsO3.L1.g_fun p v ∧ SedovFuncsO3.h_fun p v = SedovFuncsO3.L1.h_fun p v
       ∧ SedovFuncsO3.dlamdv p v = SedovFuncsO3.L1.dlamdv p v := by
   have hopen0 : ∀ᶠ w in 𝓝 v₀, ¬ SedovFuncsO3.c0 p w := by
-    simp only [epv_cond, not_le] at hc0 ⊢
+    simp only [epv_semi_cond, not_le] at hc0 ⊢
     have hcont : Continuous fun w : ℝ => p.c_val * w - 1 := by fun_prop
     exact hcont.continuousAt.eventually (lt_mem_nhds hc0)
   have hopen1 : ∀ᶠ w in 𝓝 v₀, SedovFuncsO3.c1 p w := by
-    simp only [epv_cond]
+    simp only [epv_semi_cond]
     have hcont : Continuous fun w : ℝ => p.b_val * (1 - 1 / 2 * p.xg2 * w) := by fun_prop
     exact (hcont.continuousAt.eventually (lt_mem_nhds hc1)).mono fun w hw => hw.le
   filter_upwards [hopen0, hopen1] with w h0 h1
